@@ -240,6 +240,22 @@ impl Slab {
     /// The caller must ensure that the object is still present in the slab. Slab handles are just
     /// fat pointers, so ownership and object lifetime must be managed manually by the caller.
     pub(crate) unsafe fn remove<T: ?Sized>(&mut self, handle: SlabHandle<T>) {
+        // SAFETY: Forwarding safety requirements from the caller.
+        let old_meta = unsafe { self.vacate(handle) };
+
+        // It is now safe to do the drop. If drop() panics, the slab is still in a valid state.
+        drop(old_meta);
+    }
+
+    /// Vacates the slot of an object and returns its old tag without dropping it: dropping the
+    /// returned value runs the object's destructor. This lets the caller finish its own
+    /// bookkeeping before user code runs.
+    ///
+    /// # Safety
+    ///
+    /// Same as `remove()`.
+    #[must_use]
+    pub(crate) unsafe fn vacate<T: ?Sized>(&mut self, handle: SlabHandle<T>) -> SlotMeta {
         // we also verify that the pointer matches, because otherwise one might mix up
         // slot 5 in slab A with slot 5 in slab B.
         #[cfg(debug_assertions)]
@@ -292,8 +308,7 @@ impl Slab {
         // Cannot overflow because we asserted above the removed entry was occupied.
         self.count = self.count.wrapping_sub(1);
 
-        // It is now safe to do the drop. If drop() panics, the slab is still in a valid state.
-        drop(old_meta);
+        old_meta
     }
 
     /// Removes an object from the slab, returning it.
